@@ -312,8 +312,15 @@ def put_nul(s, p):
     return s[:p] + b"\x00" + s[p:]
 
 
+UTF8_MARK = b"\xef\xbb\xbf"
+
+
 def gen_file(rng, cap, big_ok):
-    k = rng.randint(0, 11)
+    k = rng.randint(0, 13)
+    if k >= 12:
+        # a UTF-8 mark sends the file through the transcoding reader (roll buffer) even when memory maps are on
+        body = gen_file(rng, cap, False)
+        return UTF8_MARK + (body if b"\x00" in body or k == 13 else put_nul(body, rng.randint(0, len(body))))
     if k == 0:
         return b""
     if k == 1:
@@ -377,7 +384,11 @@ def predict_file(c_common, content, path, mm, cap, stdin=False):
     """model case for one file as the CLI searches it"""
     c = dict(c_common)
     c.update(stream=content, path=path, cap=cap, capacity=cap, alloc=None, stop=None, bin_reply=True, max_matches=None)
-    if mm and len(content) > 0:
+    if content.startswith(UTF8_MARK):
+        # BomPeeker strips the mark (its three peeked bytes yield nothing), every read then goes to the file; what the
+        # line buffer and the offsets see is the content after the mark; memory maps are bypassed (slice_needs_transcoding)
+        c.update(stream=content[3:], strategy=0, npre=0, hist=([8189] if stdin else []))
+    elif mm and len(content) > 0:
         c.update(strategy=1, hist=[], npre=0)
     else:
         c.update(strategy=0, npre=min(3, len(content)), hist=([8189] if stdin else []))
@@ -427,6 +438,9 @@ def straddle_files(cap):
     # small files with the NUL inside the sniffed prefix: before / inside / after the lines a multi-line pattern matches
     res["e/x0"] = b"a\nab\x00\nb\n"          # named files (outside the traversed directory) for the mixed invocations
     res["e/x1"] = b"ab\nb\n"
+    res["t/b0"] = UTF8_MARK + b"a\nab\x00\nb\n"      # UTF-8 mark: searched through the reader even under --mmap
+    res["t/b1"] = UTF8_MARK + b"ab\nb\n"
+    res["e/x2"] = UTF8_MARK + b"xa\x00\na\n"
     res["t/m0"] = b"x\nab\x00\nb\na\n"
     res["t/m1"] = b"\x00a\nb\n"
     res["t/m2"] = b"a\nb\nxa\nb\n\x00"
